@@ -588,7 +588,10 @@ def judge_queries(body, nvars, a):
             h = regs[int(w[2])]
             tt = tts[h]
             ones = bin(tt).count("1")
-        if w[1] == "paths":
+        if w[1] == "reimport":
+            if "nodes_equal=1" not in ans:
+                bad.append(("reimport", "re-importing the exported store (%s) does not reproduce the node table" % w[2]))
+        elif w[1] == "paths":
             pb, pt, d = table_paths(table, h, memo)
             if (int(aw[1]), int(aw[2])) != (pb, pt):
                 bad.append(("paths", "paths of handle %d: got %s/%s, the table has %d/%d" % (h, aw[1], aw[2], pb, pt)))
@@ -749,7 +752,7 @@ def check_C13(ck, res, replay):
             for i in range(300 if res.tier == "quick" else 8000):
                 nv = 2 + rng2.below(6)
                 kind, body = gen.gen_prog(rng2, nv, 8 + rng2.below(25), queries=False, cfg=cfg)
-                nreg = len(body)
+                nreg = sum(1 for l in body if not l.startswith("q"))
                 for _ in range(8):
                     a_ = rng2.below(nreg)
                     body.append("q " + rng2.pick(["paths %d 1" % a_, "paths %d 0" % a_, "models %d 1" % a_, "models %d 0" % a_, "depth %d" % a_, "deps %d" % a_]))
@@ -1242,6 +1245,7 @@ def check_C09(ck, res, replay):
 # ====================================================================== C19 streaming mirror
 def gen_stream(rng, nvars, nops):
     kind, body = gen.gen_prog(rng, nvars, nops, queries=False)
+    body = [l for l in body if not l.startswith("q")]
     out = []
     approx_nodes = 0
     for l in body:
@@ -1341,12 +1345,12 @@ def c14_queries(rng, b):
     after = [["audit"], ["paths"], ["counts", "0"], ["ops", rand_ops(rng, 1)], ["audit"], ["paths"], ["depths"]]
     qs = pre + [["acs"], ["depths"], ["table"], ["roundtrip", how], ["acs"], ["depths"], ["table"]] + after + sem
     if life == 2:
-        qs += [["roundtrip", rng.pick(["json", "nodes"])], ["table"], ["audit"], ["ops", rand_ops(rng, 1)], ["paths"]] + sem
+        qs += [["roundtrip", rng.pick(["json", "nodes", "live"])], ["table"], ["audit"], ["ops", rand_ops(rng, 1)], ["paths"]] + sem
     return qs
 
 
 def check_C14(ck, res, replay):
-    run_adf_check(ck, res, replay, "C14", c14_queries, 700, 12000, nmax_q=7, nmax_t=9, backends=("native", "hyb0", "hyb1"))
+    run_adf_check(ck, res, replay, "C14", c14_queries, 700, 12000, nmax_q=7, nmax_t=9, backends=("native", "hyb0", "hyb1"), ties=("TieLeaf", "TieFlagRepair"))
     # the CLI half of the property: --export never overwrites an existing file, --import reproduces the answers
     binary = build_cli(ck, res)
     if binary and not replay:
@@ -1409,6 +1413,8 @@ def c11_queries_for(n):
                 qs.append(rng.pick(pool))
             elif k < 9:
                 qs.append(["ops", rand_ops(rng, n)])
+            elif rng.chance(1, 2):
+                qs.append(["roundtrip", "live"])     # the repair step is a public call like any other: applied to the live object
             else:
                 qs.append(["audit"])
         qs.append(["audit"])
@@ -1421,7 +1427,7 @@ def c11_queries_for(n):
 def check_C11(ck, res, replay):
     # statement count is not known before generation: operand numbers are taken modulo the register file, variables modulo 1 (var 0 always exists)
     run_adf_check(ck, res, replay, "C11", c11_queries_for(1), 600, 10000, nmax_q=7, nmax_t=9, backends=("native", "hyb0", "hyb1"), seeds=True, case_timeout=15000,
-                  ties=("TieLeaf", "TieMoreModels"), rerun=True)
+                  ties=("TieLeaf", "TieMoreModels", "TieFlagRepair"), rerun=True)
     return ck.finish(res, level_of(res.pid), ASSUME_COMMON + ["HashMap iteration order is never observable through the modelled API"])
 
 
